@@ -200,33 +200,36 @@ def run(c):
     c.sample({"cell": cell_name(mid["case"]), "decide": mid["decide"], "may_dispatch": mid["may"]})
 
     # ---- 2b. the real TunnelGateway loop over loopback UDP with a real WireGuard client (shared with C09) ----
+    # observations are attributed by content (unique tag per datagram, SCMP replies quote it), so a slow machine
+    # cannot move a dispatch or a reply to another datagram; a run that fails or is too slow is drift
     tbin = c.cargo_build("vh-snap", bin="snaptunnel")
     gout = os.path.join(c.work, "gateway.json")
-    rc, so = c.sh([tbin, "gateway", gout], timeout=600)
-    if rc != 0:
+    rc, so = c.sh([tbin, "gateway", gout], timeout=1800)
+    if rc != 0 or not os.path.exists(gout):
         c.drift("gateway loop run failed rc=%s %s" % (rc, (so or "")[-300:]))
     else:
         g = json.load(open(gout))
-        for x in g["log"]:
-            if "replies" in x:   # WireGuard keepalives (empty payload) and timer-driven handshake messages are not payloads
-                x["replies"] = [rp for rp in x["replies"] if rp.get("len", 0) > 0]
         steps = {x["step"]: x for x in g["log"]}
         c.cov["gateway_loop"] = [x for x in g["log"] if x["step"].startswith("authorised")]
-        ontime = g["authorised_phase_done_at_s"] <= g["life"] - 6
-        for name, code in (("authorised:spoofed-source", 33), ("authorised:onehop-path", 20), ("authorised:garbage", 16)):
+        ontime = g["handshake"] and g["authorised_phase_done_at_s"] <= g["life"] - 6
+        if not ontime:
+            c.drift("gateway loop: handshake=%s, authorised phase took %.1fs; positive expectations not judged" % (g["handshake"], g["authorised_phase_done_at_s"]))
+        bad = (("authorised:spoofed-source", 33), ("authorised:onehop-path", 20), ("authorised:garbage", 16), ("lapsed:spoofed-source", None))
+        for name, code in bad:
             x = steps.get(name)
             if not x:
                 continue
-            if x["dispatched"]:
-                c.violation("gateway:dispatched:%s" % name.split(":")[1], "real gateway loop dispatched the %s datagram" % name.split(":")[1], g)
+            what = name.split(":")[1]
+            if x["dispatched"]:     # never allowed, whenever it happened
+                c.violation("gateway:dispatched:%s" % what, "real gateway loop dispatched the %s datagram" % what, g)
             if len(x["replies"]) > 1:
                 c.violation("reply:more-than-one", "real gateway loop answered the %s datagram %d times" % (name, len(x["replies"])), g)
             for rpl in x["replies"]:
                 if rpl.get("scmp_type") != 4 or rpl.get("len", 0) > 9216:
                     c.violation("reply:not-scmp-parameter-problem", "real gateway loop answered %s with %s" % (name, json.dumps(rpl)), g)
-                elif rpl.get("scmp_code") != code:
+                elif code is not None and rpl.get("scmp_code") != code:
                     c.drift("gateway loop: %s answered with code %s (spec %s)" % (name, rpl.get("scmp_code"), code))
-            if ontime and len(x["replies"]) != 1:
+            if ontime and code is not None and len(x["replies"]) != 1:
                 c.drift("gateway loop: %s got %d replies" % (name, len(x["replies"])))
         x = steps.get("authorised:good")
         if ontime and (not x or x["dispatched"] != 1 or x["replies"]):
